@@ -283,6 +283,60 @@ Proof.
   - split; [vm_compute; reflexivity|]. split; vm_compute; reflexivity.
 Qed.
 
+(* google.protobuf.Any: the statement with the codec option WithProtoToAny ([any_back = Some back], back
+   standing for resolver + decode of the payload text + proto.Marshal).  rep_root then asks that the
+   reverse conversion of the payload text succeeds; the decoded value bytes are what it yields
+   (EV_pbany) — that forward and reverse conversion are inverse is the inner codec's own round trip. *)
+Theorem C01_full_statement_proto_any :
+  forall fmt_float any_inner parse_float parse_time back env,
+    oneofs_flat env -> oneof_names_ok env ->
+    float_text_ok fmt_float -> float_roundtrip fmt_float parse_float -> time_parse_extends parse_time ->
+    inner_ok any_inner ->
+    forall root m, rep_root any_inner print (Some back) env root m ->
+      exists txt J, encode fmt_float any_inner env root m = Ok txt /\ strict_parse txt = Some J /\
+        (N.of_nat (jnest J) <= max_nesting ->
+         exists m', decode_tree (dec_scalar parse_float parse_time) print false (Some back) env root J = Ok m' /\
+                    equiv_root any_inner print (Some back) env root m m').
+Proof.
+  intros fmt_float any_inner parse_float parse_time back env Hflat Hnames Hfok Hfrt Htime Hinner.
+  exact (codec_full fmt_float any_inner (dec_scalar parse_float parse_time) print (Some back) env Hflat
+           (scalar_rt_own fmt_float parse_float parse_time Hfok Hfrt Htime) Hnames Hinner print_nonempty false).
+Qed.
+Print Assumptions C01_full_statement_proto_any.
+
+(* non-vacuity for a google.protobuf.Any field: type T, payload bytes 0a 01 78, inner JSON {} *)
+Definition pa_env : env := [([82], SObject [mkProp [97] [1] false true [] (FAny true)])].
+Definition pa_msg : msg := [(1, VMsg [(1, VStr (any_prefix ++ [84])); (2, VBytes [10; 1; 120])])].
+Definition pa_inner (tn pb : bytes) : outcome bytes := Ok [123; 125].
+Definition pa_back (tn js : bytes) : outcome bytes := Ok [10; 1; 120].
+Definition pa_txt : bytes := Eval vm_compute in
+  match encode rt_fmt pa_inner pa_env [82] pa_msg with Ok t => t | _ => [] end.
+Definition pa_tree : jvalue := Eval vm_compute in
+  match strict_parse pa_txt with Some j => j | None => JNull end.
+Example C01_proto_any_example :
+  rep_root pa_inner print (Some pa_back) pa_env [82] pa_msg /\
+  encode rt_fmt pa_inner pa_env [82] pa_msg = Ok pa_txt /\ strict_parse pa_txt = Some pa_tree /\
+  decode_tree (dec_scalar rt_pf rt_pt) print false (Some pa_back) pa_env [82] pa_tree = Ok pa_msg.
+Proof.
+  split.
+  - unfold rep_root. change (lookup pa_env [82]) with (Some (SObject [mkProp [97] [1] false true [] (FAny true)])).
+    constructor.
+    + apply props_ok_b_sound. vm_compute. reflexivity.
+    + intros l v Hl Hv. vm_compute in Hl. destruct Hl as [<-|[]]. vm_compute in Hv. injection Hv as <-.
+      split; [|reflexivity].
+      apply RV_pbany with (tn := [84]).
+      * reflexivity.
+      * reflexivity.
+      * intros n v Hg. cbn [msg_get] in Hg.
+        destruct (1 =? n) eqn:E1; [apply N.eqb_eq in E1; subst n; injection Hg as <-; left; eauto|].
+        destruct (2 =? n) eqn:E2; [apply N.eqb_eq in E2; subst n; injection Hg as <-; right; eauto|discriminate].
+      * eexists. reflexivity.
+      * exists pa_back. split; [reflexivity|]. intros Jd _ _. eexists. reflexivity.
+    + intros l a n s v Hl Hp Hv Hs. vm_compute in Hl. destruct Hl as [<-|[]]. cbn [p_siblings] in Hs. contradiction.
+    + intros p q1 q2 Hp Hq1. vm_compute in Hp. destruct Hp as [<-|[]]. contradiction.
+  - split; [vm_compute; reflexivity|]. split; vm_compute; reflexivity.
+Qed.
+
 (* the same document through the decoder family's byte-level model (tokenizer + token decoder) *)
 Example C01_bytes_example :
   env_items_ok_b rt_env = true /\
